@@ -23,7 +23,7 @@ ASSUMPTIONS = [
     "outcomes the statement does not fix (re-binding a prefix to a URI that already has one) are observed: rejected => unchanged, accepted => invariants hold",
     "a sheet parsed from a text is compared with what the text's @namespace rules mean (last declaration of a URI wins); only for texts whose prefixes are all distinct (then: the last declaration of a URI wins); a prefix declared twice inside one text is input handling the statement does not fix (the parser ignores the repetition; the statement does not say)",
 ]
-PROBES = ["rebind_prefix", "delete_used_namespace_rejected", "undeclared_prefix_rejected", "rule_moved_between_sheets", "default_namespace_changed", "restart", "duplicate_uri_rules", "selector_in_media", "empty_bodied_rule", "rule_detached_and_kept", "detached_rule_attached_again", "two_superseded_declarations_in_one_text", "other_uri_rejected"]
+PROBES = ["rebind_prefix", "delete_used_namespace_rejected", "undeclared_prefix_rejected", "rule_moved_between_sheets", "default_namespace_changed", "restart", "uri_declared_again_under_other_prefix", "selector_in_media", "empty_bodied_rule", "rule_detached_and_kept", "detached_rule_attached_again", "two_superseded_declarations_in_one_text", "other_uri_rejected"]
 
 ANY = -1
 PREFIXES = ["p", "q", "r", ""]
@@ -134,8 +134,8 @@ class World:
             k, got = lib.call(lambda: dict(s.namespaces.items()))
             if k != "ok":
                 raise Viol("V1_mapping_equals_rules", f"{where}:items-raises:{lib.ename(got)}", f"{got!r}")
-            if len({u for _, u in rules}) < len(rules):
-                self.stats["probe:duplicate_uri_rules"] += 1
+            # (two rules for one URI at once is a state the repaired tree never holds - the superseded rule is
+            # taken out -; ref_mapping still covers it for trees where it is reachable)
             if ref is not None and got != ref:
                 raise Viol("V1_mapping_equals_rules", f"{where}:mapping", f"after {where}: sheet {si} namespaces {got} but its @namespace rules {rules} mean {ref}")
             # serialised @namespace rules stay well-formed
@@ -294,6 +294,8 @@ class World:
                 expect_reject = "delete_used_namespace"
         elif k == "add_ns_rule":
             text = f'@namespace {op["prefix"]} "{op["uri"]}";' if op["prefix"] else f'@namespace "{op["uri"]}";'
+            if op["uri"] in before_map.values() and before_map.get(op["prefix"] or "") != op["uri"]:
+                self.stats["probe:uri_declared_again_under_other_prefix"] += 1
             if op.get("index") is None:
                 kk, v = lib.call(s.add, text)
             else:
